@@ -108,6 +108,7 @@ var (
 	VocabNames  []string // plausible attribute / class / id / tag names
 	VocabColon  []string // tokens containing ':' (meta properties, schemes)
 	VocabValues []string // any short token, usable as attribute value or text
+	VocabHeaders   []string // string arguments of Get/Set/Add/Values calls that look like HTTP header names
 	VocabAttrNames []string // string arguments of the library's *Attr* calls: the attribute names it reads or writes
 	VocabPunct  []string // short tokens without letters or digits (separators, marks), surrounding spaces kept
 )
@@ -117,6 +118,7 @@ func HarvestVocabulary(root string) int {
 	nums := map[int]bool{}
 	punct := map[string]bool{}
 	attrNames := map[string]bool{}
+	headers := map[string]bool{}
 	add := func(tok string) {
 		raw := tok
 		tok = strings.TrimSpace(tok)
@@ -185,6 +187,15 @@ func HarvestVocabulary(root string) int {
 				case *ast.Ident:
 					fname = f.Name
 				}
+				if fname == "Get" || fname == "Set" || fname == "Add" || fname == "Values" || fname == "Del" {
+					for _, a := range call.Args {
+						if lit, ok := a.(*ast.BasicLit); ok && lit.Kind == token.STRING {
+							if v, err := strconv.Unquote(lit.Value); err == nil && len(v) >= 3 && len(v) <= 40 && v[0] >= 'A' && v[0] <= 'Z' && !strings.ContainsAny(v, " <>\"'=:/") {
+								headers[v] = true
+							}
+						}
+					}
+				}
 				if strings.Contains(fname, "Attr") {
 					for _, a := range call.Args {
 						if lit, ok := a.(*ast.BasicLit); ok && lit.Kind == token.STRING {
@@ -242,6 +253,7 @@ func HarvestVocabulary(root string) int {
 	sort.Ints(VocabNumbers)
 	VocabNames, VocabColon, VocabValues, VocabPunct = keys(names), keys(colon), keys(values), keys(punct)
 	VocabAttrNames = keys(attrNames)
+	VocabHeaders = keys(headers)
 	return len(VocabValues)
 }
 
